@@ -146,6 +146,16 @@ def Res.isErr {α} : Res α → Bool
   | .err .. => true
   | _ => false
 
+def Res.endIndex {α} : Res α → Option Nat
+  | .ok i _ _ _ => some i
+  | _ => none
+
+/-- the parser state after the call (success or error) -/
+def Res.state {α} : Res α → Option PState
+  | .ok _ _ m _ => some m
+  | .err _ m _ => some m
+  | _ => none
+
 def Res.steps {α} : Res α → Nat
   | .ok _ _ _ st => st
   | .err _ _ st => st
@@ -483,6 +493,12 @@ def parseModule (m : PState) (name : Node) : PState :=
 
 /-! ## `kg_read` and `read_list` (mutually recursive, fuel) -/
 
+/-- `(i) < len(t) and t[i].isnumeric()` -/
+def numericAt (cfg : Cfg) (t : Text) (i : Nat) : Bool :=
+  match t[i]? with
+  | some d => cfg.isNumeric d
+  | none => false
+
 def puncts : List Char := [';', '(', ')', '{', '}', ']']
 
 mutual
@@ -501,7 +517,7 @@ mutual
           match t[i + 2]? with
           | none => .err (.unexpectedEOF (i + 2)) m st
           | some c => .ok (i + 3) (.chr c) m st
-        else if cfg.isNumeric a || (readNeg && a == '-' && (match t[i + 1]? with | some d => cfg.isNumeric d | none => false)) then
+        else if cfg.isNumeric a || (readNeg && a == '-' && numericAt cfg t (i + 1)) then
           match readNum cfg t i with
           | (i', some v) => .ok i' v m (st + (i' - i))
           | (i', none) => .err .valueError m (st + (i' - i))
@@ -520,8 +536,8 @@ mutual
             else if aa == '{' then
               (readList cfg t fuel '}' (i + 2) m).bind fun i' d m' =>
                 match listToDictErr d with
-                | some e => .err e m' (st + d.length)
-                | none => .ok i' (.dict d) m' (st + d.length)
+                | some e => .err e m' st
+                | none => .ok i' (.dict d) m' st
             else if aa == '[' then .ok (i + 2) (.str [':', '[']) m st
             else if aa == '|' then .ok (i + 2) (.str [':', '|']) m st
             else .ok (i + 2) (.op [':', aa]) m st
@@ -579,11 +595,38 @@ def argsAhead (t : Text) (i : Nat) : Bool := cmatch t i '(' || cmatch2 t i ':' '
 def mkCall (a : Node) (fa : List Node) (arity : Nat) : Node :=
   .fn a true fa arity (!hasNone fa)
 
+/-- `safe_eq(a, KGSym(s))` -/
+def Node.symIs (a : Node) (s : List Char) : Bool :=
+  match a with
+  | .sym n => n == s
+  | _ => false
+
+/-- `_is_monad(a)`: a KGOp whose name is a key of `_vm` -/
+def Node.isMonad (cfg : Cfg) : Node → Bool
+  | .op name => cfg.monads.contains name
+  | _ => false
+
+/-- `ii, aa = peek_adverb(t, i); if aa: <yes> else: <no>` -/
+def onAdverb {α} (t : Text) (i : Nat) (yes : Nat → List Char → Res α) (no : Unit → Res α) : Res α :=
+  match peekAdverb t i with
+  | (i', some adv) => yes i' adv
+  | (_, none) => no ()
+
+/-- the marker `a.args[0]` of `.comment(...)`: IndexError without arguments, TypeError
+    (`str.index` of a non-str) unless it is a str, KGChar or KGSym -/
+def commentMarker : List Node → Except Err (List Char)
+  | [] => .error .indexError
+  | .str s :: _ => .ok s
+  | .chr c :: _ => .ok [c]
+  | .sym s :: _ => .ok s
+  | _ :: _ => .error .typeError
+
 mutual
   /-- `prog(t, i, ignore_newline)` -/
   def prog (cfg : Cfg) (t : Text) : (fuel : Nat) → (i : Nat) → (ign : Bool) → PState → Res (List Node)
     | 0, _, _, _ => .outOfFuel
     | fuel + 1, i, ign, m => (progLoop cfg t fuel i ign [] m).addSteps 1
+  termination_by structural fuel => fuel
 
   /-- the `while i < len(t)` loop of `prog` -/
   def progLoop (cfg : Cfg) (t : Text) : (fuel : Nat) → (i : Nat) → (ign : Bool) → (acc : List Node) → PState → Res (List Node)
@@ -599,6 +642,7 @@ mutual
               else if i < ii then (progLoop cfg t fuel ii ign (q :: acc) m2).addSteps 1
               else .spin 1
       else .ok i acc.reverse m 1
+  termination_by structural fuel => fuel
 
   /-- `_expr(t, i, ignore_newline)` -/
   def expr (cfg : Cfg) (t : Text) : (fuel : Nat) → (i : Nat) → (ign : Bool) → PState → Res Node
@@ -609,6 +653,7 @@ mutual
         else
           (kgRead cfg t fuel i1 false ign m1).bind fun ii aa m2 =>
             (exprLoop cfg t fuel i1 a ii aa ign m2).addSteps 1
+  termination_by structural fuel => fuel
 
   /-- the `while isinstance(aa,(KGOp,KGSym)) or safe_eq(aa,'{')` loop of `_expr`:
       `i` is the end of the expression so far, `(ii, aa)` the lookahead -/
@@ -624,10 +669,8 @@ mutual
           else .ok ii aa m 1
         verb.bind fun i5 v m3 =>
           let step : Res Node :=
-            match peekAdverb t i5 with
-            | (i6, some adv) => applyAdverbs cfg t fuel i6 v adv 2 true a m3
-            | (_, none) =>
-              (expr cfg t fuel i5 ign m3).bind fun i7 aaa m4 => .ok i7 (.fn v true [a, aaa] 2 false) m4 1
+            onAdverb t i5 (fun i6 adv => applyAdverbs cfg t fuel i6 v adv 2 true a m3)
+              (fun _ => (expr cfg t fuel i5 ign m3).bind fun i7 aaa m4 => .ok i7 (.fn v true [a, aaa] 2 false) m4 1)
           step.bind fun i8 a' m5 =>
             (kgRead cfg t fuel i8 false ign m5).bind fun ii' aa' m6 =>
               if i < i8 then (exprLoop cfg t fuel i8 a' ii' aa' ign m6).addSteps 1 else .spin 1
@@ -635,6 +678,7 @@ mutual
         let i' := skip cfg t i true
         .ok i' a m (i' - i + 1)
       else .ok i a m 1
+  termination_by structural fuel => fuel
 
   /-- the part of `_factor` / `_expr` that reads a function after its `{`: the body (a program),
       `}`, `get_fn_arity`, and an argument list if one follows -/
@@ -651,6 +695,7 @@ mutual
             if argsAhead t i4 then
               (readFnArgs cfg t fuel i4 m2).bind fun i5 fa m3 => .ok i5 (mkCall b fa arity) m3 (i3 - i2 + 1)
             else .ok i4 (.fn b false [] arity false) m2 (i3 - i2 + 1)
+  termination_by structural fuel => fuel
 
   /-- `_apply_adverbs(t, i, a, aa, arity, dyad, dyad_value)` -/
   def applyAdverbs (cfg : Cfg) (t : Text) : (fuel : Nat) → (i : Nat) → (a : Node) → (aa : List Char) → (arity : Nat) → (dyad : Bool) → (dv : Node) → PState → Res Node
@@ -661,6 +706,7 @@ mutual
       (expr cfg t fuel i1 false m).bind fun i2 x m1 =>
         let operand := if dyad then Node.pylist [dv, x] else x
         .ok i2 (.fn (.pylist (first :: Node.adv (.str aa) arity :: more ++ [operand])) false [] (if dyad then 2 else 1) true) m1 (i1 - i + 1)
+  termination_by structural fuel => fuel
 
   /-- `_read_fn_args(t, i)` -/
   def readFnArgs (cfg : Cfg) (t : Text) : (fuel : Nat) → (i : Nat) → PState → Res (List Node)
@@ -670,6 +716,7 @@ mutual
       if !argsAhead t i then .err (.unexpectedChar i) m 1
       else if cmatch t i1 ')' then .ok (i1 + 1) [] m 1
       else (fnArgsLoop cfg t fuel i1 i1 [] m).addSteps 1
+  termination_by structural fuel => fuel
 
   /-- the `while True` loop of `_read_fn_args`; `k` is the index after the last separator -/
   def fnArgsLoop (cfg : Cfg) (t : Text) : (fuel : Nat) → (i k : Nat) → (acc : List Node) → PState → Res (List Node)
@@ -687,6 +734,7 @@ mutual
             if a.isNone then cexpect t i2 ')' m2 fun i' => .ok i' acc.reverse m2 1
             else if i < i2 then (fnArgsLoop cfg t fuel i2 k (a :: acc) m2).addSteps 1
             else .spin 1
+  termination_by structural fuel => fuel
 
   /-- `read_cond(klong, t, i)` -/
   def readCond (cfg : Cfg) (t : Text) : (fuel : Nat) → (i : Nat) → PState → Res Node
@@ -703,6 +751,7 @@ mutual
                 (expr cfg t fuel i5 true m2).bind fun i6 n3 m3 =>
                   let i7 := skip cfg t i6 true
                   cexpect t i7 ']' m3 fun i8 => .ok i8 (.cond [n1, n2, n3]) m3 (i4 - i3 + (i7 - i6) + 2)
+  termination_by structural fuel => fuel
 
   /-- `read_expr_array(klong, t, i)` -/
   def readExprArray (cfg : Cfg) (t : Text) : (fuel : Nat) → (i : Nat) → PState → Res (List Node)
@@ -710,6 +759,7 @@ mutual
     | fuel + 1, i0, m =>
       let i := skip cfg t i0 true
       (exprArrayLoop cfg t fuel i [] m).addSteps (i - i0 + 1)
+  termination_by structural fuel => fuel
 
   /-- the `while i < len(t) and not cmatch(t, i, ']')` loop of `read_expr_array` -/
   def exprArrayLoop (cfg : Cfg) (t : Text) : (fuel : Nat) → (i : Nat) → (acc : List Node) → PState → Res (List Node)
@@ -726,6 +776,7 @@ mutual
           else if i < i2 then (exprArrayLoop cfg t fuel i2 acc' m1).addSteps (i2 - i1 + 1)
           else .spin 1
       else .ok (if cmatch t i ']' then i + 1 else i) acc.reverse m 1
+  termination_by structural fuel => fuel
 
   /-- `_factor(t, i, ignore_newline)` -/
   def factor (cfg : Cfg) (t : Text) : (fuel : Nat) → (i : Nat) → (ign : Bool) → PState → Res Node
@@ -738,9 +789,7 @@ mutual
         (kgReadArray cfg t fuel i ign m).bind fun i1 a m1 =>
           -- an adverb after the factor
           let adverbed : Nat → Node → PState → Res Node := fun i2 v m2 =>
-            match peekAdverb t i2 with
-            | (i3, some adv) => applyAdverbs cfg t fuel i3 v adv 1 false .none m2
-            | (_, none) => .ok i2 v m2 1
+            onAdverb t i2 (fun i3 adv => applyAdverbs cfg t fuel i3 v adv 1 false .none m2) (fun _ => .ok i2 v m2 1)
           if a.isNone then .ok i1 a m1 1
           else if a.isStr ['{'] then
             (readFn cfg t fuel i1 m1).bind fun i2 f m2 => adverbed i2 f m2
@@ -748,39 +797,26 @@ mutual
             if argsAhead t i1 then
               (readFnArgs cfg t fuel i1 m1).bind fun i2 fa m2 =>
                 let call := mkCall a fa fa.length
-                match a with
-                  | .sym name =>
-                    if name == ".comment".toList then
-                      match fa with
-                      | [] => .err .indexError m2 1
-                      | mk :: _ =>
-                        let marker : Option (List Char) := match mk with
-                          | .str s => some s
-                          | .chr c => some [c]
-                          | .sym s => some s
-                          | _ => none
-                        match marker with
-                        | none => .err .typeError m2 1
-                        | some mk =>
-                          readSysComment cfg t i2 mk m2 fun i3 st =>
-                            (factor cfg t fuel i3 ign m2).addSteps st
-                    else if name == ".module".toList then
-                      match fa with
-                      | [] => .err .indexError m2 1
-                      | nm :: _ => adverbed i2 call (parseModule m2 nm)
-                    else adverbed i2 call m2
-                  | _ => adverbed i2 call m2
+                if a.symIs ".comment".toList then
+                  match commentMarker fa with
+                  | .error e => .err e m2 1
+                  | .ok mk =>
+                    readSysComment cfg t i2 mk m2 fun i3 st => (factor cfg t fuel i3 ign m2).addSteps st
+                else if a.symIs ".module".toList then
+                  match fa with
+                  | [] => .err .indexError m2 1
+                  | nm :: _ => adverbed i2 call (parseModule m2 nm)
+                else adverbed i2 call m2
             else adverbed i1 a m1
-          else if (match a with | .op name => cfg.monads.contains name | _ => false) then
-            match peekAdverb t i1 with
-            | (i3, some adv) => applyAdverbs cfg t fuel i3 a adv 1 false .none m1
-            | (_, none) =>
-              (expr cfg t fuel i1 ign m1).bind fun i2 x m2 => .ok i2 (.mfn a x) m2 1
+          else if a.isMonad cfg then
+            onAdverb t i1 (fun i3 adv => applyAdverbs cfg t fuel i3 a adv 1 false .none m1)
+              (fun _ => (expr cfg t fuel i1 ign m1).bind fun i2 x m2 => .ok i2 (.mfn a x) m2 1)
           else if a.isStr ['('] then
             (expr cfg t fuel i1 ign m1).bind fun i2 x m2 =>
               cexpect t i2 ')' m2 fun i3 => .ok i3 x m2 1
           else if a.isStr [':', '['] then readCond cfg t fuel i1 m1
           else .ok i1 a m1 1
+  termination_by structural fuel => fuel
 end
 
 /-! ## entry points -/
